@@ -289,6 +289,22 @@ func (d *c11dir) judge(r *Run, fs framingSpec) {
 		r.Fail("send-failed", "%s: %s", name, d.sendErr)
 		return
 	}
+	// A bare number that ends the stream is complete only by virtue of that end: a
+	// framing may deliver it, or report it as possibly cut off (an error other than
+	// io.EOF) - what it may not do is drop it behind a clean end of stream.
+	if n := len(d.recs); n > 0 && len(d.got) == n-1 && d.recvErr != nil && d.recvErr != io.EOF {
+		if last := d.recs[n-1]; len(last) > 0 && (last[0] == '-' || (last[0] >= '0' && last[0] <= '9')) && fs.JSON {
+			same := true
+			for i := range d.got {
+				if !bytes.Equal(d.got[i], d.recs[i]) {
+					same = false
+				}
+			}
+			if same {
+				return
+			}
+		}
+	}
 	for i := range d.recs {
 		if i >= len(d.got) {
 			r.Fail("record-mismatch", "%s: %d records sent, only %d received (then %v)", name, len(d.recs), len(d.got), d.recvErr)
